@@ -337,7 +337,8 @@ def inner_race(ctx, world, clock, n):
 
 def run(ctx):
     import logging
-    logging.getLogger("deep").setLevel(logging.CRITICAL + 1)
+    from ..lib.quiet import quiet_logging
+    quiet_logging()
     ctx.rule = ("(a) hit histories (1-40 hits; times on / 1 ns around the period boundary, repeated instants, long gaps; "
                 "condition true 80%) x fire_count/fire_period as decimal text, numbers, absent or unparsable text x window "
                 "(none / start / end / both, as the action holds it) through the real handler under a virtual clock; "
